@@ -400,6 +400,12 @@ def cases(tier, seed):
         add("pens", part=part, n=150 if T else 40)
     for part in range(4 if T else 2):
         add("glyphs", part=part, n=60 if T else 25)
+    for part in range(8 if T else 3):
+        add("pens_e2e", part=part, n=120 if T else 40)
+    for part in range(8 if T else 2):
+        add("pens_chain", part=part, n=4000 if T else 1500)
+    for part in range(6 if T else 2):
+        add("fonts", part=part, n=60 if T else 20)
     add("stored")
     if T:
         for sp in ['cu2qu', 'qu2cu', 'pens/cu2quPen_test.py', 'pens/qu2cuPen_test.py']:
@@ -698,6 +704,292 @@ def drv_glyphs(case, rnd, ctx):
         if i == 0:
             ctx.sample = {"glyph_input": before[live[0]][:6], "masters": m, "empty_masters": sorted(empties), "tolerances": tols,
                           "output_ops": [op for op, _ in glyphs[live[0]].rec][:12]}
+
+
+def _chain_contours(rnd, mag, cubic=True):
+    """Outlines made of chains of gentle consecutive curves (the shape of real glyph outlines: short smooth
+    segments, occasionally a line), the input class on which pen-level state (current point, pending
+    segments) decides the result."""
+    import math
+    rec = []
+    for _ in range(rnd.randrange(1, 3)):
+        x, y = rnd.uniform(-mag, mag) * 0.5, rnd.uniform(-mag, mag) * 0.5
+        ang = rnd.uniform(0, 2 * math.pi)
+        step = rnd.choice([0.01, 0.03, 0.1, 0.3]) * mag
+        rec.append(("moveTo", ((float(round(x, 1)), float(round(y, 1))),)))
+        for _s in range(rnd.randrange(2, 9)):
+            k = rnd.random()
+            if k < 0.15:
+                ang += rnd.uniform(-1, 1)
+                x, y = x + step * math.cos(ang), y + step * math.sin(ang)
+                rec.append(("lineTo", ((float(round(x, 1)), float(round(y, 1))),)))
+                continue
+            pts = []
+            for _i in range(3 if cubic else rnd.randrange(2, 5)):
+                ang += rnd.uniform(-0.7, 0.7) * rnd.choice([0.2, 1.0, 1.6])
+                st = step * rnd.uniform(0.3, 1.2) * (rnd.choice([1, 1, 1, 3]) if cubic else 1)
+                x, y = x + st * math.cos(ang), y + st * math.sin(ang)
+                pts.append((float(round(x, 1)), float(round(y, 1))))
+            rec.append(("curveTo" if cubic else "qCurveTo", tuple(pts)))
+        rec.append(("closePath", ()) if rnd.random() < 0.7 else ("endPath", ()))
+    _chain_contours.last_step = step
+    return rec
+
+
+def _judge_outline(ctx, func, opts, before, after, tol, mag, extra=None):
+    """End-to-end: the converted outline stays inside the tolerance neighbourhood of the input outline, and vice versa."""
+    a, b = _segs_of(before), _segs_of(after)
+    if not a or not b:
+        return True
+    ctx.judged()
+    exceeds, measured, allow = BZ.hausdorff_exceeds(a, b, tol, mag)
+    if exceeds:
+        w = {"options": opts, "tolerance": tol, "input": before[:14], "output": after[:14], "measured_lower_bound": measured}
+        if extra:
+            w.update(extra)
+        ctx.violation({"kind": "curve", "func": func, "what": "converted outline leaves the tolerance neighbourhood of its input"},
+                      "%s %s: outline deviates %.3f with tolerance %s" % (func, opts, measured, tol), w)
+        return False
+    return True
+
+
+def _judge_aligned(ctx, func, opts, before, after, tol, mag):
+    """Per-segment judgement when the output has one drawing operation per input operation (no direction
+    reversal, no super-beziers): every output segment starts where the input segment starts, ends where it ends
+    and stays within the tolerance of it.  -> True/False, or None when the records do not align (caller falls back
+    to the whole-outline comparison)."""
+    if len(before) != len(after) or any((a[0] in ("moveTo", "closePath", "endPath", "lineTo")) != (b[0] in ("moveTo", "closePath", "endPath", "lineTo"))
+                                        or (a[0] in ("moveTo", "closePath", "endPath") and a[0] != b[0]) for a, b in zip(before, after)):
+        return None
+    cur_in = cur_out = None
+    ok = True
+    for (op_a, args_a), (op_b, args_b) in zip(before, after):
+        if op_a in ("closePath", "endPath"):
+            continue
+        if op_a in ("moveTo", "lineTo"):
+            if op_b != op_a or tuple(args_a[-1]) != tuple(args_b[-1]):
+                return None
+            cur_in, cur_out = args_a[-1], args_b[-1]
+            continue
+        if args_b[-1] is None or args_a[-1] is None:
+            return None
+        ctx.judged()
+        a = _segs_of([("moveTo", (cur_in,)), (op_a, args_a), ("endPath", ())])
+        b = _segs_of([("moveTo", (cur_out,)), (op_b, args_b), ("endPath", ())])
+        end_ok = abs(args_a[-1][0] - args_b[-1][0]) <= 1e-9 * mag and abs(args_a[-1][1] - args_b[-1][1]) <= 1e-9 * mag
+        exceeds, measured, allow = BZ.hausdorff_exceeds(a, b, tol, mag) if a and b else (False, 0.0, 0.0)
+        if exceeds or not end_ok:
+            ctx.violation({"kind": "curve", "func": func, "what": "a converted segment leaves the tolerance neighbourhood of its input segment" if end_ok else "a converted segment does not end at the input segment's end point"},
+                          "%s %s: segment deviates %.3f with tolerance %s" % (func, opts, measured, tol),
+                          {"options": opts, "tolerance": tol, "input_segment": [cur_in] + list(args_a), "output_segment": [cur_out] + list(args_b),
+                           "input": before[:14], "measured_lower_bound": measured})
+            ok = False
+            break
+        cur_in, cur_out = args_a[-1], args_b[-1]
+    return ok
+
+
+def drv_pens_chain(case, rnd, ctx):
+    """Many chains of consecutive curves through Cu2QuPen, judged segment by segment (cheap, so thousands of
+    chains per case): mixed cubic/quadratic output keeps pen state between segments that whole-glyph tests with
+    one curve per contour never exercise."""
+    from fontTools.pens.cu2quPen import Cu2QuPen
+    from fontTools.pens.recordingPen import RecordingPen
+    from fontTools.cu2qu.errors import Error as Cu2QuError
+    for i in range(case["n"]):
+        mag = rnd.choice([100.0, 1000.0, 1000.0])
+        rec = _chain_contours(rnd, mag)
+        step = _chain_contours.last_step
+        tol = step * rnd.choice([0.01, 0.03, 0.08, 0.2]) if rnd.random() < 0.6 else rnd.choice([0.25, 1.0, 2.0, 4.0])
+        allq = rnd.random() < 0.3
+        out = RecordingPen()
+        pen = Cu2QuPen(out, tol, all_quadratic=allq)
+        try:
+            for op, args in rec:
+                getattr(pen, op)(*args)
+        except Cu2QuError:
+            ctx.skip("cu2qu error")
+            continue
+        v = _judge_aligned(ctx, "Cu2QuPen", "all_quadratic=%s" % allq, rec, out.value, tol, mag)
+        if v is None:
+            ctx.violation({"kind": "curve", "func": "Cu2QuPen", "what": "output operations do not correspond one to one to the input operations"},
+                          "Cu2QuPen changed the structure of the outline", {"input": rec[:12], "output": out.value[:12]})
+        elif v:
+            kept = sum(1 for op, _ in out.value if op == "curveTo")
+            quads = sum(1 for op, _ in out.value if op == "qCurveTo")
+            ctx.nontrivial("Cu2QuPen/chain/allq%d/kept%d/quads%d" % (allq, min(kept, 6), min(quads, 6)))
+        if i == 0:
+            ctx.sample = {"chain_input": rec[:6], "tolerance": tol, "out_ops": [op for op, _ in out.value][:12]}
+
+
+def drv_pens_e2e(case, rnd, ctx):
+    """Whole outlines through the converting pens with every option; the oracle compares the drawn input with the
+    recorded output geometrically (the per-call monitors cannot see a pen handing the wrong curve to the converter)."""
+    from fontTools.pens.cu2quPen import Cu2QuPen, Cu2QuPointPen, Cu2QuMultiPen
+    from fontTools.pens.qu2cuPen import Qu2CuPen
+    from fontTools.pens.recordingPen import RecordingPen, RecordingPointPen
+    from fontTools.pens.pointPen import SegmentToPointPen, PointToSegmentPen
+    from fontTools.cu2qu.errors import Error as Cu2QuError
+    for i in range(case["n"]):
+        mag = rnd.choice([100.0, 1000.0])
+        if rnd.random() < 0.75:
+            rec = _chain_contours(rnd, mag)
+            # tolerance classes relative to the segment size too: coarse tolerances are where a segment taken from a
+            # wrong start point can still "fit"
+            tol = _chain_contours.last_step * rnd.choice([0.01, 0.03, 0.08, 0.2]) if rnd.random() < 0.6 else rnd.choice([0.25, 1.0, 2.0, 4.0])
+        else:
+            rec = _random_contours(rnd, mag, super_bezier=False)
+            tol = rnd.choice([0.25, 1.0, 2.0, 4.0]) * (mag / 1000.0 if rnd.random() < 0.5 else 1.0)
+        for allq in (True, False):
+            rev = rnd.random() < 0.3
+            opts = "all_quadratic=%s reverse=%s" % (allq, rev)
+            out = RecordingPen()
+            pen = Cu2QuPen(out, tol, reverse_direction=rev, all_quadratic=allq)
+            try:
+                for op, args in rec:
+                    getattr(pen, op)(*args)
+            except Cu2QuError:
+                ctx.skip("cu2qu error")
+                continue
+            if allq and any(op == "curveTo" for op, _ in out.value):
+                ctx.violation({"kind": "curve", "func": "Cu2QuPen", "what": "cubic segment left in all-quadratic output"},
+                              "Cu2QuPen left a curveTo", {"input": rec[:10]})
+            verdict = None if rev else _judge_aligned(ctx, "Cu2QuPen", opts, rec, out.value, tol, mag)
+            if verdict is None:
+                verdict = _judge_outline(ctx, "Cu2QuPen", opts, rec, out.value, tol, mag)
+            if verdict:
+                kept = sum(1 for op, _ in out.value if op == "curveTo")
+                ctx.nontrivial("Cu2QuPen/allq%d/kept%d/ops%d" % (allq, min(kept, 3), min(len(rec), 12)))
+            out2 = RecordingPen()
+            ppen = Cu2QuPointPen(PointToSegmentPen(out2), tol, reverse_direction=rev, all_quadratic=allq)
+            try:
+                sp = SegmentToPointPen(ppen)
+                for op, args in rec:
+                    getattr(sp, op)(*args)
+            except Cu2QuError:
+                continue
+            if _judge_outline(ctx, "Cu2QuPointPen", opts, rec, out2.value, tol, mag):
+                ctx.nontrivial("Cu2QuPointPen/allq%d/ops%d" % (allq, min(len(rec), 12)))
+        # masters through the multi pen, each judged against its own input
+        m = rnd.randrange(2, 4)
+        amp = mag * 0.01
+        masters = [rec] + [[(op, tuple((round(x + rnd.uniform(-amp, amp), 1), round(y + rnd.uniform(-amp, amp), 1)) for x, y in args)) for op, args in rec]
+                           for _ in range(m - 1)]
+        outs = [RecordingPen() for _ in range(m)]
+        mp = Cu2QuMultiPen(outs, tol, reverse_direction=rnd.random() < 0.3)
+        try:
+            for k in range(len(rec)):
+                op = rec[k][0]
+                if op in ("closePath", "endPath"):
+                    getattr(mp, op)()
+                else:
+                    getattr(mp, op)([mrec[k][1] for mrec in masters])
+        except Cu2QuError:
+            outs = None
+        if outs:
+            okm = True
+            for k in range(m):
+                okm = _judge_outline(ctx, "Cu2QuMultiPen", "master %d of %d" % (k, m), masters[k], outs[k].value, tol, mag) and okm
+            if okm:
+                ctx.nontrivial("Cu2QuMultiPen/e2e/m%d" % m)
+        # quadratic outline to cubic
+        qrec = _chain_contours(rnd, mag, cubic=False) if rnd.random() < 0.7 else _random_contours(rnd, mag, cubic=False)
+        allc = rnd.random() < 0.5
+        revq = rnd.random() < 0.3
+        out3 = RecordingPen()
+        qp = Qu2CuPen(out3, tol, all_cubic=allc, reverse_direction=revq)
+        for op, args in qrec:
+            getattr(qp, op)(*args)
+        if allc and any(op == "qCurveTo" for op, _ in out3.value):
+            ctx.violation({"kind": "curve", "func": "Qu2CuPen", "what": "quadratic segment left in all-cubic output"},
+                          "Qu2CuPen left a qCurveTo", {"input": qrec[:10]})
+        if _judge_outline(ctx, "Qu2CuPen", "all_cubic=%s reverse=%s" % (allc, revq), qrec, out3.value, tol, mag):
+            ctx.nontrivial("Qu2CuPen/allc%d/ops%d" % (allc, min(len(qrec), 12)))
+        if i == 0:
+            ctx.sample = {"pen_input": rec[:6], "tolerance": tol, "qu2cu_out_ops": [op for op, _ in out3.value][:12]}
+
+
+class _Font:
+    """Minimal font object with the API cu2qu.ufo.fonts_to_quadratic needs."""
+
+    def __init__(self, upem, glyphs):
+        self.lib = {}
+        self.info = type("Info", (), {"unitsPerEm": upem})()
+        self._g = glyphs
+        for n, g in glyphs.items():
+            g.name = n
+
+    def keys(self):
+        return self._g.keys()
+
+    def __contains__(self, n):
+        return n in self._g
+
+    def __getitem__(self, n):
+        return self._g[n]
+
+
+def drv_fonts(case, rnd, ctx):
+    """fonts_to_quadratic over masters with their own units-per-em, sparse glyph sets and every way of giving the
+    tolerance; each master's glyph must stay within ITS tolerance (max_err_em x its UPEM, or its max_err)."""
+    from fontTools.cu2qu.ufo import fonts_to_quadratic, DEFAULT_MAX_ERR
+    from fontTools.cu2qu.errors import Error as Cu2QuError
+    for i in range(case["n"]):
+        m = rnd.randrange(2, 4)
+        upems = [rnd.choice([250, 1000, 1000, 2048, 4096]) for _ in range(m)]
+        if rnd.random() < 0.4:
+            upems = [upems[0]] * m
+        names = ["g%d" % k for k in range(rnd.randrange(1, 4))]
+        base = {n: _chain_contours(rnd, 1000.0) if rnd.random() < 0.6 else _random_contours(rnd, 1000.0, closed=True, super_bezier=False) for n in names}
+        fonts, inputs = [], []
+        for k in range(m):
+            sc = upems[k] / 1000.0
+            gl = {}
+            for n in names:
+                if k > 0 and rnd.random() < 0.2:
+                    continue            # sparse master
+                amp = 8.0 if k else 0.0
+                gl[n] = _Glyph([(op, tuple((float(round((x + rnd.uniform(-amp, amp)) * sc)), float(round((y + rnd.uniform(-amp, amp)) * sc))) for x, y in args))
+                                for op, args in base[n]])
+            fonts.append(_Font(upems[k], gl))
+            inputs.append({n: list(g.rec) for n, g in gl.items()})
+        how = rnd.choice(["default", "em", "em_list", "abs", "abs_list"])
+        if how == "default":
+            kw, tols = {}, [DEFAULT_MAX_ERR * u for u in upems]
+        elif how == "em":
+            e = rnd.choice([0.0005, 0.001, 0.002, 0.004])
+            kw, tols = {"max_err_em": e}, [e * u for u in upems]
+        elif how == "em_list":
+            es = [rnd.choice([0.0005, 0.001, 0.003]) for _ in range(m)]
+            kw, tols = {"max_err_em": es}, [e * u for e, u in zip(es, upems)]
+        elif how == "abs":
+            t = rnd.choice([0.5, 1.0, 3.0])
+            kw, tols = {"max_err": t}, [t] * m
+        else:
+            tols = [rnd.choice([0.5, 1.0, 3.0, 6.0]) for _ in range(m)]
+            kw = {"max_err": list(tols)}
+        try:
+            fonts_to_quadratic(fonts, reverse_direction=rnd.random() < 0.3, remember_curve_type=rnd.random() < 0.5, **kw)
+        except Cu2QuError:
+            ctx.skip("cu2qu error (incompatible or no approximation)")
+            continue
+        ok = True
+        for n in names:
+            structs = {tuple(_structure(f[n].rec)) for f in fonts if n in f}
+            ctx.judged()
+            if len(structs) > 1:
+                ctx.violation({"kind": "curve", "func": "fonts_to_quadratic", "what": "masters converted together have different structures"},
+                              "fonts_to_quadratic outputs differ in structure for %s" % n, {"upems": upems, "how": how})
+                ok = False
+                continue
+            for k, f in enumerate(fonts):
+                if n in f:
+                    ok = _judge_outline(ctx, "fonts_to_quadratic", "tolerance=%s" % how, inputs[k][n], f[n].rec, tols[k], float(upems[k]),
+                                        {"upems": upems, "master": k, "kwargs": repr(kw), "tolerances": tols}) and ok
+        if ok:
+            ctx.nontrivial("fonts_to_quadratic/%s/m%d/upems%d" % (how, m, len(set(upems))))
+        if i == 0:
+            ctx.sample = {"upems": upems, "how": how, "glyphs": names, "tolerances": tols}
 
 
 def drv_stored(case, rnd, ctx):
